@@ -61,6 +61,9 @@ func (w *World) inputFuncs() []*ssa.Function {
 }
 
 func rootFn(fn *ssa.Function) *ssa.Function {
+	if theWorld != nil {
+		return theWorld.bodyRoot(fn)
+	}
 	for fn.Parent() != nil {
 		fn = fn.Parent()
 	}
@@ -83,6 +86,7 @@ func runC09(c *Ctx) {
 	ruleClassification(c, "C09.6")
 	ruleReadLoopExits(c, "C09.7")
 	rulePanicSites(c, "C09.8", fns)
+	ruleNilReceivers(c, "C09.9", fns)
 }
 
 // ---------------------------------------------------------------------------------
@@ -556,5 +560,151 @@ func rulePanicSites(c *Ctx, rule string, fns []*ssa.Function) {
 		for _, b := range bad {
 			c.Bad(rule, "-", "panic site", "-", b+" is reachable from an input entry point")
 		}
+	}
+}
+
+// ---------------------------------------------------------------------------------
+// C09.9 — results of lookups/accessors that may be nil are not dereferenced unchecked
+
+// nilableGetter: a module function with a pointer-typed first result some return of which
+// yields nil or the plain content of a pointer field / map lookup (absent = nil).
+func (w *World) nilableGetter(fn *ssa.Function) bool {
+	if fn == nil || !w.IsMod[fn] || len(fn.Blocks) == 0 || fn.Signature.Results().Len() == 0 {
+		return false
+	}
+	if _, ok := fn.Signature.Results().At(0).Type().Underlying().(*types.Pointer); !ok {
+		return false
+	}
+	ai := w.absint()
+	for _, r := range returnsOf(fn) {
+		for _, lf := range w.guardedLeaves(r.Results[0], r) {
+			v := stripIface(w.resolveLoad(lf.val))
+			if isNilConst(v) {
+				return true
+			}
+			if ai.definitelyNonNil(v) {
+				continue
+			}
+			switch x := v.(type) {
+			case *ssa.UnOp:
+				if _, _, isF := fieldLoad(x); isF {
+					return true
+				}
+			case *ssa.Lookup:
+				return true
+			case *ssa.Extract:
+				if _, isL := x.Tuple.(*ssa.Lookup); isL {
+					return true
+				}
+			}
+		}
+	}
+	return false
+}
+
+// derefsReceiver: the method reads or writes through its receiver on some path that is not
+// guarded by a nil test of the receiver.
+func (w *World) derefsReceiver(fn *ssa.Function) bool {
+	if fn == nil || len(fn.Params) == 0 || len(fn.Blocks) == 0 {
+		return true
+	}
+	recv := fn.Params[0]
+	der := false
+	w.eachInstr(fn, func(in ssa.Instruction) {
+		fa, ok := in.(*ssa.FieldAddr)
+		if !ok || fa.X != ssa.Value(recv) {
+			return
+		}
+		guarded := false
+		for _, f := range w.factsAt(in) {
+			if v, isNil, ok := nilFact(f); ok && !isNil && v == ssa.Value(recv) {
+				guarded = true
+			}
+		}
+		if !guarded {
+			der = true
+		}
+	})
+	return der
+}
+
+func ruleNilReceivers(c *Ctx, rule string, fns []*ssa.Function) {
+	w := c.W
+	c.Rule(rule, "nil results: for every call, in the functions reachable from the input entry points, of a module function that can return a nil pointer (a nil literal, the content of a pointer field, a map lookup), each use of the result as the receiver of a method that dereferences it, or as the base of a field access, is dominated by result != nil", 6)
+	for _, fn := range fns {
+		w.eachInstr(fn, func(in ssa.Instruction) {
+			call, ok := in.(*ssa.Call)
+			if !ok {
+				return
+			}
+			g := call.Call.StaticCallee()
+			if !w.nilableGetter(g) {
+				return
+			}
+			var res ssa.Value = call
+			if call.Call.Signature().Results().Len() > 1 {
+				res = nil
+				for _, r := range *call.Referrers() {
+					if ex, ok := r.(*ssa.Extract); ok && ex.Index == 0 {
+						res = ex
+					}
+				}
+				if res == nil {
+					return
+				}
+			}
+			// all uses (through phis and single-store locals)
+			seen := map[ssa.Value]bool{}
+			var uses func(v ssa.Value)
+			uses = func(v ssa.Value) {
+				if seen[v] || v.Referrers() == nil {
+					return
+				}
+				seen[v] = true
+				for _, u := range *v.Referrers() {
+					var what string
+					switch x := u.(type) {
+					case *ssa.FieldAddr:
+						if x.X == v {
+							what = "field access"
+						}
+					case *ssa.Call:
+						if cal := x.Call.StaticCallee(); cal != nil && len(x.Call.Args) > 0 && x.Call.Args[0] == v && cal.Signature.Recv() != nil && !x.Call.IsInvoke() {
+							if w.derefsReceiver(cal) {
+								what = "call of " + fname(cal)
+							}
+						}
+					case *ssa.Store:
+						if x.Val == v {
+							if al, isAl := x.Addr.(*ssa.Alloc); isAl && !w.escapes(al) {
+								for _, r2 := range *al.Referrers() {
+									if ld, isLd := r2.(*ssa.UnOp); isLd {
+										uses(ld)
+									}
+								}
+							}
+						}
+					case *ssa.Phi:
+						uses(x)
+					}
+					if what == "" {
+						continue
+					}
+					c.Anchor(rule, fname(fn))
+					guarded := false
+					for _, f := range w.factsAt(u) {
+						if fv, isNil, ok := nilFact(f); ok && !isNil && (fv == v || w.sameKey(fv, v) || w.sameKey(fv, res)) {
+							guarded = true
+						}
+					}
+					if guarded {
+						c.OK(rule, fname(fn), "use of "+g.Name()+"()", w.instrPos(u), what+" under result != nil")
+					} else {
+						c.Bad(rule, fname(fn), "use of "+g.Name()+"()", w.instrPos(u), what+" on the result of "+fname(g)+", which can be nil, without a dominating nil test: a nil-pointer dereference on an input-reachable path crashes the endpoint", w.factsDesc(u)...)
+					}
+				}
+			}
+			uses(res)
+		})
 	}
 }
